@@ -715,10 +715,13 @@ func (f *HashFile) UnmarshalText(b []byte) error {
 	sc.Scan()
 	sum := strings.TrimPrefix(sc.Text(), "h1:")
 	for sc.Scan() {
-		li := strings.SplitN(sc.Text(), "h1:", 2)
-		if len(li) != 2 {
+		// The hash is base64 encoded and cannot contain a colon. Hence, split
+		// on the last "h1:" as file names are allowed to contain this sequence.
+		i := strings.LastIndex(sc.Text(), "h1:")
+		if i == -1 {
 			return ErrChecksumFormat
 		}
+		li := []string{sc.Text()[:i], sc.Text()[i+3:]}
 		*f = append(*f, struct{ N, H string }{strings.TrimSpace(li[0]), li[1]})
 	}
 	if sum != f.Sum() {
